@@ -166,10 +166,13 @@ func (e *Enc) encodeTop() {
 				e.unsupp("ghost " + g.Name + ": " + err.Error())
 				continue
 			}
-			v, _, err := env.eval(g.Init.Expr)
+			v, vt, err := env.eval(g.Init.Expr)
 			if err != nil {
 				e.unsupp("ghost init " + g.Name + ": " + err.Error())
 				continue
+			}
+			if vt == types.Typ[types.UntypedNil] {
+				v.T = e.S.zero(l.T)
 			}
 			e.store(heap, l, v.T)
 		}
